@@ -12,7 +12,7 @@ player steps per stream, recursion depth 64 — the C++ has no such budget; its 
 same player over the same track as the validator did).
 Excluded by theorems: `FErr.riff`, `FErr.codec .atEmpty` (Proofs/PipelineMds), `FErr.bankIndex`,
 `FErr.writer (.player .impossible)` (Proofs/PipelineBank, PipelineWriter); `FErr.headerWrap` and
-`FErr.codec .stackEmpty` are `InputError`s since repository fixes 8d409a9 / c5dd456. -/
+`FErr.codec .stackEmpty` are `InputError`s since repository fixes 5952bf5 / 3e0ed67. -/
 def ferrIsBudget : MdsFile.FErr → Bool
   | .writer .fuel | .writer (.player .fuel) => true
   | _ => false
